@@ -256,10 +256,10 @@ class UniformScale(DiscreteAffine, Similarity):
 
         Returns
         -------
-        s : `float`
+        s : ``(1,)`` `ndarray`
             The scale across each axis.
         """
-        return np.asarray(self.scale)
+        return np.array([self.scale])
 
     def _from_vector_inplace(self, p):
         r"""
